@@ -859,3 +859,103 @@ def abs4b(ctx, pid):
         ctx.bad(c, g.loc(), "recursions / collapse bit not found")
     else:
         ctx.ok(c, g.loc(), "bit 0 -> left child with keypath[1:]; collapse prepends bit 1 iff the right child survives")
+
+
+@rule("SETTAB", ["C12"])
+def settab(ctx, pid):
+    """Decision table of the BinaryTrie._set dispatcher: which (node kind, key exhausted?, mode) combinations
+    are refused with NodeOverrideError, erased, stored or handed to the kv / branch handlers."""
+    eng = S(ctx)
+    K_ = consts(ctx)
+    f = ctx.P.func(BIN + "._set")
+    hterm, kterm = ("p", "node_hash"), ("p", "keypath")
+    val, ids = ("p", "value"), ("p", "if_delete_subtrie")
+    rows = {}
+    for p, st in pq.states(ctx, f):
+        if p.cut:
+            continue
+        parses = parse_terms(st)
+        if st.facts.eq.get(hterm) == K_["BLANK_HASH"]:
+            kind = "BLANK"
+        elif not parses:
+            continue
+        else:
+            ks = binkind(ctx, ("sub", sorted(parses, key=str)[0], C(0)), st.facts)
+            if not ks:
+                continue
+            kind = next(iter(ks)) if len(ks) == 1 else "ANY(%s)" % "/".join(sorted(ks))
+        lo, hi = eng.len_of(kterm, st.facts)
+        key = "empty" if hi == 0 else "nonempty" if lo >= 1 else "any"
+        log = dict((truth_norm(t, pol)[0], truth_norm(t, pol)[1]) for t, pol, _ in st.log)
+        vflag = log.get(val)
+        dflag = log.get(ids)
+        case = "%s:key-%s:value-%s:subtrie-%s" % (kind, key, {True: "set", False: "empty", None: "any"}[vflag], {True: "yes", False: "no", None: "any"}[dflag])
+        lr = pq.local_raise(p)
+        if lr is not None:
+            out = "raise " + p.exit[1].split(".")[-1]
+        elif p.exit[0] == "raise":
+            continue
+        elif p.exit[0] == "return":
+            r = st.ret
+            if r == C(K_["BLANK_HASH"]):
+                out = "blank"
+            elif r[0] == "call" and r[1] == BIN + "._set_kv_node":
+                out = "kv-handler"
+            elif r[0] == "call" and r[1] == BIN + "._set_branch_node":
+                out = "branch-handler"
+            elif r[0] == "call" and r[1] == BIN + "._hash_and_save":
+                inner = r[2][1]
+                if inner[0] == "call" and inner[1] == ENC_LF and inner[2] == (val,):
+                    out = "store leaf(value)"
+                elif inner[0] == "call" and inner[1] == ENC_KV and inner[2][0] == kterm and inner[2][1] == ("call", BIN + "._hash_and_save", (("self",), ("call", ENC_LF, (val,), ())), ()):
+                    out = "store kv(keypath, leaf(value))"
+                else:
+                    out = "store " + tstr(inner)[:40]
+            else:
+                out = "return " + tstr(r)[:40]
+        else:
+            out = "fall"
+        rows.setdefault(case, set()).add(out)
+    want = {
+        "BLANK:key-any:value-set:subtrie-any": {"store kv(keypath, leaf(value))"},
+        "BLANK:key-any:value-empty:subtrie-any": {"blank"},
+        "LEAF:key-nonempty:value-any:subtrie-any": {"raise NodeOverrideError"},
+        "LEAF:key-empty:value-any:subtrie-yes": {"blank"},
+        "LEAF:key-empty:value-set:subtrie-no": {"store leaf(value)"},
+        "LEAF:key-empty:value-empty:subtrie-no": {"blank"},
+        "KV:key-empty:value-any:subtrie-yes": {"blank"},
+        "KV:key-empty:value-any:subtrie-no": {"raise NodeOverrideError"},
+        "KV:key-nonempty:value-any:subtrie-any": {"kv-handler"},
+        "BRANCH:key-empty:value-any:subtrie-yes": {"blank"},
+        "BRANCH:key-empty:value-any:subtrie-no": {"raise NodeOverrideError"},
+        "BRANCH:key-nonempty:value-any:subtrie-any": {"branch-handler"},
+    }
+    c = "table:BinaryTrie._set"
+    if rows == want:
+        ctx.ok(c, f.loc(), "12 cases: conflicts refused with NodeOverrideError, erasure only for leaf/blank or in subtrie mode, otherwise the kv / branch handler")
+    else:
+        diffs = []
+        for k in sorted(set(rows) | set(want)):
+            if rows.get(k) != want.get(k):
+                diffs.append("%s: %s, expected %s" % (k, sorted(rows.get(k, [])), sorted(want.get(k, []))))
+        interp = all("ANY(" not in d for d in diffs)
+        (ctx.bad if interp else ctx.unsure)(c, f.loc(), "dispatcher table differs: " + diffs[0], **({"witness": {"differences": diffs}} if interp else {}))
+    # handler arguments are passed in the handlers' parameter order
+    for hname in ("_set_kv_node", "_set_branch_node"):
+        h = ctx.P.func(BIN + "." + hname)
+        bad = None
+        for p, st in pq.states(ctx, f):
+            if p.exit[0] == "return" and st.ret is not None and st.ret[0] == "call" and st.ret[1] == h.qual:
+                parses = parse_terms(st)
+                pt = sorted(parses, key=str)[0]
+                wantmap = {"keypath": kterm, "node_hash": hterm, "node_type": ("sub", pt, C(0)), "left_child": ("sub", pt, C(1)),
+                           "right_child": ("sub", pt, C(2)), "value": val, "if_delete_subtrie": ids}
+                args = st.ret[2][1:]
+                for pn, a in zip(h.params[1:], args):
+                    if pn in wantmap and a != wantmap[pn]:
+                        bad = (pn, a)
+        cst = "handler-args:BinaryTrie.%s" % hname
+        if bad:
+            ctx.bad(cst, f.loc(), "%s receives `%s` for its parameter %s" % (hname, tstr(bad[1])[:40], bad[0]))
+        else:
+            ctx.ok(cst, f.loc(), "%s receives keypath / node parts / value / mode in its parameter order" % hname)
